@@ -12,7 +12,7 @@ RULE = (
     "Non-trivial = the handler outcome is not a plain successful return, or neighbours ran concurrently; distinct = distinct cells / distinct mixes of outcome kinds"
 )
 ASSUMPTIONS = ["handlers raising BaseException subclasses (CancelledError, KeyboardInterrupt) are outside 'any other exception'"]
-REQUIRED_MONITORS = {"one_final_response": 500, "code_and_payload": 500, "no_leak": 500, "neighbour_unaffected": 100, "later_request": 16, "no_site": 8, "neighbour_transport_failure": 30, "same_reaction_alone": 300, "response_usable": 500}
+REQUIRED_MONITORS = {"one_final_response": 500, "code_and_payload": 500, "no_leak": 500, "neighbour_unaffected": 100, "later_request": 16, "no_site": 8, "neighbour_transport_failure": 30, "same_reaction_alone": 300, "response_usable": 500, "handler_suppressed": 30}
 EXHAUSTIVE = {"outcome_table": "every outcome kind x 7 methods (+1 unassigned method code) x CON/NON x {before, after} the empty ACK"}
 
 METHODS = [1, 2, 3, 4, 5, 6, 7]
@@ -37,6 +37,8 @@ def outcomes():
         ("return-with-code-4.03", lambda m: (131, b"body")),
         ("return-with-code-5.03", lambda m: (163, b"body")),
         ("return-without-code", lambda m: (default_code(m), b"body")),
+        ("return-NoResponse-sentinel", lambda m: ("suppressed", None)),
+        ("return-with-no_response-option", lambda m: ("suppressed", None)),
         ("return-none", lambda m: (160, b"")),
         ("return-str", lambda m: (160, b"")),
         ("return-int", lambda m: (160, b"")),
@@ -114,6 +116,14 @@ def build_site(loop, hlog):
                 return aiocoap.Message(payload=b"body")
             if name == "return-none":
                 return None
+            if name == "return-NoResponse-sentinel":
+                import warnings
+
+                with warnings.catch_warnings():
+                    warnings.simplefilter("ignore", DeprecationWarning)
+                    return aiocoap.message.NoResponse
+            if name == "return-with-no_response-option":
+                return aiocoap.Message(code=aiocoap.CONTENT, payload=b"body", no_response=26)
             if name == "return-str":
                 return "a string " + secret
             if name == "return-int":
@@ -251,6 +261,16 @@ def judge(reqs, res, box, rep, case, table, with_site=True, fault=None):
         else:
             exp = expected_for(name, q["method"], q["serial"], table)
         key = "%s" % name if not name.startswith("raise-renderable-") else "raise-renderable"
+        if exp[0] == "suppressed":
+            # the handler asked for no response to be sent: none goes out, a confirmable request still gets its
+            # empty ACK
+            rep.monitor("handler_suppressed")
+            acks = {e.data for e in sends if e.dst == dst and e.msg.mid == 0x100 + (q["serial"] % 0x7000) and e.msg.type == rc.ACK and e.msg.code == 0}
+            if finals:
+                rep.violation("suppressed-response-sent/%s" % key, "the handler suppressed the response, but one was sent", wit(request=repr(q), finals=[e.brief() for e in finals.values()]), case)
+            elif q["type"] == rc.CON and len(acks) != 1:
+                rep.violation("suppressed-response-no-empty-ack/%s" % key, "the handler suppressed the response; the confirmable request got %d empty ACKs instead of one" % len(acks), wit(request=repr(q)), case)
+            continue
         if len(finals) != 1:
             rep.violation("final-responses-%d/%s" % (len(finals), key), "a request was answered with %d final responses instead of exactly one" % len(finals), wit(request=repr(q), finals=[e.brief() for e in finals.values()]), case)
             continue
